@@ -94,8 +94,16 @@ def sym_str(name: str, maxlen: int, minlen: int = 0, ascii_only: bool = False) -
     return s
 
 
+FIXED = {}  # selector name -> option index: splits one obligation into several (the union is the stated bound)
+
+
 def pick(name: str, options: list):
     """Solver-chosen element of a concrete list (forks len(options) ways)."""
+    if name in FIXED:
+        r = options[FIXED[name] % len(options)]
+        with NoTracing():
+            _reg(name, r)
+        return r
     i = sym_sel(name + "#", len(options))
     r = options[-1]
     for j, o in enumerate(options[:-1]):
@@ -151,7 +159,9 @@ def conclude(ok, **leaves) -> bool:
         return True
     # failing path: the branch above has constrained the model; realize the leaves now
     with NoTracing():
-        STATE["failed"] = {k: _jsonable(realize(v)) for k, v in leaves.items()}
+        allv = dict(STATE.get("leaves", {}))
+        allv.update(leaves)
+        STATE["failed"] = {k: _jsonable(realize(v)) for k, v in allv.items()}
     return False
 
 
@@ -160,7 +170,9 @@ def fail(reason: str, **leaves) -> bool:
     with NoTracing():
         STATE["reached"] += 1
         if not STATE["twin"]:
-            d = {k: _jsonable(realize(v)) for k, v in leaves.items()}
+            allv = dict(STATE.get("leaves", {}))
+            allv.update(leaves)
+            d = {k: _jsonable(realize(v)) for k, v in allv.items()}
             d["__reason__"] = reason
             STATE["failed"] = d
     return False
@@ -215,6 +227,20 @@ def install_crosshair_patches():
             return orig_dict(*a, **kw)
 
         _core._PATCH_REGISTRATIONS[dict] = dict_patch
+
+    # executing a module body under the tracer fails (class namespaces become CrossHair maps): modules loaded by path by the
+    # repository's own loaders (sign/encrypt/KMS scripts) are executed untraced; the loader logic itself stays traced
+    import importlib.machinery as _im
+
+    if not getattr(_im.SourceFileLoader.exec_module, "_verif_wrapped", False):
+        _orig_exec = _im.SourceFileLoader.exec_module
+
+        def exec_module(self, module):
+            with NoTracing():
+                return _orig_exec(self, module)
+
+        exec_module._verif_wrapped = True
+        _im.SourceFileLoader.exec_module = exec_module
 
     def ljust(self, width, fill=b" "):
         n = len(self)
